@@ -238,13 +238,14 @@ func (p *pkg) digest(name string) string {
 }
 
 type facts struct {
-	Nat     map[string]int64   `json:"nat"`
-	NatList map[string][]int64 `json:"nat_list"`
-	Bool    map[string]bool    `json:"bool"`
-	Str     map[string]string  `json:"str"`
-	StrList map[string][]string `json:"str_list"`
-	Digests map[string]string  `json:"digests"`
-	Digest  string             `json:"digest"`
+	Nat         map[string]int64    `json:"nat"`
+	NatList     map[string][]int64  `json:"nat_list"`
+	Bool        map[string]bool     `json:"bool"`
+	Str         map[string]string   `json:"str"`
+	StrList     map[string][]string `json:"str_list"`
+	Digests     map[string]string   `json:"digests"`
+	FileDigests map[string]string   `json:"file_digests"`
+	Digest      string              `json:"digest"`
 }
 
 func main() {
@@ -269,6 +270,18 @@ func main() {
 	for _, n := range []string{"MaskXOR", "CheckEncoding", "Buffers.CheckEncoding", "BufferPool.Get", "binaryCeil", "Deque.getElement", "Deque.putElement",
 		"Deque.doRemove", "Deque.doPushBack", "Deque.doPushFront", "Deque.InsertAfter", "Deque.InsertBefore", "Deque.PopFront", "Deque.autoReset", "Split"} {
 		f.Digests["internal."+n] = e.internal.digest(n)
+	}
+	// digest of every source file (comments, positions and verif hook statements removed): which files differ from
+	// the committed baseline decides whether a quick run widens its search (see `check`)
+	f.FileDigests = map[string]string{}
+	for prefix, p := range map[string]*pkg{"": e.root, "internal/": e.internal} {
+		for n, file := range p.files {
+			file.Comments = nil
+			var sb strings.Builder
+			_ = printer.Fprint(&sb, token.NewFileSet(), file)
+			hh := sha256.Sum256([]byte(strings.Join(strings.Fields(sb.String()), " ")))
+			f.FileDigests[prefix+n] = hex.EncodeToString(hh[:8])
+		}
 	}
 	lean := render(f)
 	h := sha256.Sum256([]byte(lean))
